@@ -23,6 +23,7 @@ from .absint import Interp
 from .report import Finding
 
 WHAT = {
+    "A10": "the matcher asks the value provider it was given - also one that is (still) empty when the matcher is built",
     "A9": "a tag is an active tag exactly when it is PREFIX.with_CATEGORY<sep>VALUE for one of the matcher's prefixes and its value separator (defaults or constructor arguments)",
     "A1": "category group enabled <=> (no positive tag or some positive tag matches) and no negative tag matches, for every tag order",
     "A2": "tags of a category unknown to the value provider never exclude (dict and both provider classes); empty group enabled",
@@ -433,6 +434,50 @@ def check_tag_pattern(chk, ix):
                 _fail(chk, "A9", init, "%s: %s -> %r" % (title, tag, got),
                       "a matcher built with %s (prefixes %s, separator %r) reads the tag %r as %r; expected %r" % (
                           title, prefixes, sep, tag, got, want))
+
+
+def check_matcher_keeps_provider(chk, ix):
+    """A10: ActiveTagMatcher.__init__ with providers that are empty at construction time (an empty dict that the
+    environment fills later, a composite provider whose cache is still empty): the matcher holds THAT object."""
+    chk.rule("A10", WHAT["A10"])
+    mc = ix.cls("behave.tag_matcher:ActiveTagMatcher")
+    init = mc.lookup("__init__")
+    for kind in ("empty dict", "dict with data", "empty provider object"):
+        it = Interp(ix, stubs={"TagMatcher.__init__": lambda i, s_, a, k, n: [(s_, "val", None)]}, name="ActiveTagMatcher.__init__")
+        it.fold_regex = True
+        it.int_sat = 100
+        it.list_cap = 100
+        st = State()
+        st.frames = []
+        me = st.alloc(HObj(mc, {}, label="matcher"))
+        if kind == "empty provider object":
+            pc = ix.cls("behave.tag_matcher:CompositeActiveTagValueProvider")
+            prov = st.alloc(HObj(pc, {"data": st.alloc(HObj("dict", kind="dict", items=[])), "value_providers": st.alloc(HObj("list", kind="list", items=[]))},
+                                 label="composite provider (cache empty)"))
+            # a UserDict is false while it is empty
+            it.stubs["UserDict.__len__"] = lambda i, s_, a, k, n: [(s_, "val", 0)]
+        else:
+            prov = st.alloc(HObj("dict", kind="dict", items=[] if kind == "empty dict" else [("os", "linux")], label=kind))
+        try:
+            outs = it.call_function(st, init, [prov], {}, None, self_val=me)
+        except AnalysisError as e:
+            if kind == "empty provider object":
+                # truthiness of an object whose class comes from outside the repository: not decided for this variant
+                chk.notes.append("A10: %s not evaluable (%s)" % (kind, e))
+                continue
+            raise
+        chk.absorb(it)
+        chk.instance("A10")
+        if len(outs) != 1 or outs[0][1] != "val":
+            raise AnalysisError("ActiveTagMatcher.__init__ not evaluable (%s): %r" % (kind, [(k, v) for _, k, v in outs][:3]))
+        got = outs[0][0].obj(me).fields.get("value_provider")
+        if isinstance(got, Ref) and got.oid == prov.oid:
+            chk.ok("A10", {"provider": kind, "matcher.value_provider": "the object passed"}, nontrivial_key=kind)
+        else:
+            _fail(chk, "A10", init, "%s replaced" % kind,
+                  "ActiveTagMatcher(%s) does not keep the provider it was given (it holds %s): categories the environment adds to the provider "
+                  "afterwards, or a composite provider whose cache is still empty, are unknown to the matcher - nothing is ever excluded"
+                  % (kind, "another, new object" if isinstance(got, Ref) else repr(got)))
 
 
 def check_provider_known_unknown(chk, ix):
